@@ -277,12 +277,48 @@ def harnesses(tier):
                           _h_litplus(k), {'literal_plus': k}, replay='line', fuel=400, task_budget=120))
     for n in range(0, (6 if q else 7) + 1):
         hs.append(Harness('idle_done[len=%d]' % n, _h_idle_done(n), {'len': n}, replay='idle'))
+    hs.append(Harness('seqset_work_bound', _h_seqset_work(),
+                      {'numbers': '1..2^32-1 (symbolic) or *', 'max_value': '0..2^32-1 (symbolic)',
+                       'shapes': ['n', '*', 'a:b', 'a:*', '*:b']}, replay='seqwork'))
     for prefix, m in SIEVE_Q:
         for k in range(0, m + extra + 1):
             hs.append(Harness('sieve:%s+%d' % (prefix.decode(), k), _h_sieve(prefix, k),
                               {'prefix': prefix.decode(), 'symbolic_bytes': k},
                               replay='sieve', fuel=40 * (len(prefix) + k + 4), task_budget=120))
     return hs
+
+
+def seqset_work(g, left, right, max_value):
+    """the work a sequence-set element causes is bounded by the mailbox, not by the numbers the client wrote.
+    left/right: int | '*' ; returns (size, start, stop)"""
+    SS = g['spec'].SequenceSet
+    mx = SS._max
+    conv = lambda x: mx if isinstance(x, str) else x  # noqa: E731
+    elem = conv(left) if right is None else (conv(left), conv(right))
+    r = SS._get_range(elem, max_value)
+    if isinstance(r, tuple) and len(r) == 0:
+        return 0, None, None
+    return r.stop - r.start, r.start, r.stop
+
+
+def _h_seqset_work():
+    def fn(eng):
+        from pysymex import Outcome, B, AND, IMPLIES
+        shape = eng.choose('shape', 5)     # n | * | a:b | a:* | *:b
+        big = 2 ** 32 - 1
+        a = eng.fresh_int('a', 1, big)
+        b = eng.fresh_int('b', 1, big)
+        mv = eng.fresh_int('max_value', 0, big)
+        left, right = [(a, None), ('*', None), (a, b), (a, '*'), ('*', b)][shape]
+        wit = lambda m: {'left': left if isinstance(left, str) else left.eval(m),  # noqa: E731
+                         'right': None if right is None else (right if isinstance(right, str) else right.eval(m)),
+                         'max_value': mv.eval(m)}
+        size, start, stop = seqset_work(_g, left, right, mv)
+        if start is None:
+            return Outcome(True, witness=wit, site='empty')
+        ok = AND(B(size <= mv) | B(size <= 1), IMPLIES(B(size > 0), AND(B(start >= 0), B(stop - 1 <= mv) | B(mv == 0))))
+        return Outcome(ok, witness=wit, site='range', info='range of client-chosen size')
+    return fn
 
 
 def _h_litplus(k):
@@ -312,13 +348,13 @@ def _with_alarm(fn, seconds=1.0):
 
     def handler(signum, frame):
         raise _Alarm()
-    old = signal.signal(signal.SIGALRM, handler)
-    signal.setitimer(signal.ITIMER_REAL, seconds)
+    old = signal.signal(signal.SIGVTALRM, handler)
+    signal.setitimer(signal.ITIMER_VIRTUAL, seconds)
     try:
         return fn()
     finally:
-        signal.setitimer(signal.ITIMER_REAL, 0)
-        signal.signal(signal.SIGALRM, old)
+        signal.setitimer(signal.ITIMER_VIRTUAL, 0)
+        signal.signal(signal.SIGVTALRM, old)
 
 
 def replay(harness, w):
@@ -342,6 +378,12 @@ def replay(harness, w):
     elif harness == 'sieve':
         buf = bytes.fromhex(w['sieve'])
         call = lambda: sieve_cmd.Command.parse(memoryview(buf), Params())  # noqa: E731
+    elif harness == 'seqwork':
+        size, start, stop = seqset_work(g, w['left'], w['right'], w['max_value'])
+        bad = start is not None and not (size <= max(1, w['max_value']) and (size <= 0 or stop - 1 <= max(w['max_value'], 0)
+                                                                                 or w['max_value'] == 0))
+        return {'violates': bad, 'detail': 'element %r:%r with %d messages expands to %d numbers'
+                % (w['left'], w['right'], w['max_value'], size), 'category': 'seqset work'}
     elif harness == 'idle':
         buf = bytes.fromhex(w['done'])
         cmd = IdleCommand(b'a')
@@ -356,7 +398,7 @@ def replay(harness, w):
     try:
         kind, detail = _with_alarm(lambda: _outcome(g, call, len(buf) + 8))
     except _Alarm:
-        return {'violates': True, 'detail': 'no answer within 1 s (hang) on %r' % buf, 'kind': 'hang',
+        return {'violates': True, 'detail': 'no answer within 1 s of CPU time (hang) on %r' % buf, 'kind': 'hang',
                 'category': 'hang'}
     return {'violates': kind == 'escape', 'detail': '%r -> %s %s' % (buf, kind, detail), 'kind': kind,
             'category': (detail or '').split(':')[0] + ':' + (detail or ':').split(':')[1] if kind == 'escape' else kind}
